@@ -11,6 +11,16 @@ from typing import List
 from .line_writer import LineWriter
 
 
+def python_string_literal(value: str) -> str:
+    """
+    Return a double-quoted, ASCII-only Python string literal that evaluates to exactly ``value``.
+
+    Plain ASCII text is rendered unchanged between the quotes; backslashes, double quotes, control
+    characters and non-ASCII characters are escaped, so the literal stays on one line and cannot end early.
+    """
+    return '"' + value.encode("unicode_escape").decode("ascii").replace('"', '\\"') + '"'
+
+
 class CodeWriter:
     """
     Utility for writing indented code blocks with support for line wrapping and function signatures.
